@@ -1,7 +1,7 @@
 (* C07 -- the VFS routes every request to the one mount owning the inode, and only to it.
    Only statements, closed by [exact]; proofs live in Proofs/Vfs*.v. *)
 From Coq Require Import List NArith Bool.
-From FB Require Import Model.Pseudo Gen.VfsTable Model.Vfs Proofs.VfsCodec Proofs.VfsAlloc Proofs.VfsInv Proofs.VfsRouting Proofs.VfsIssued Proofs.PseudoWalk Proofs.VfsConsistent.
+From FB Require Import Model.Pseudo Gen.VfsTable Model.Vfs Proofs.VfsCodec Proofs.VfsAlloc Proofs.VfsInv Proofs.VfsRouting Proofs.VfsIssued Proofs.PseudoWalk Proofs.VfsConsistent Proofs.VfsIdmap Proofs.VfsAsync.
 Import ListNotations.
 Local Open Scope N_scope.
 
@@ -132,6 +132,21 @@ Theorem C07_ino_consistent_pseudo_readdir : forall s c a plus cur size off lim p
                       else snd y = None)) l.
 Proof. exact pseudo_readdir_numbers. Qed.
 
+(* the async twin (impl AsyncFileSystem for Vfs, ten methods): the same answer and the same backend calls as the sync
+   method, made through the backend's async method ([tagged]: method number + async_tag), for every operation except
+   getattr of a pseudo directory (which reaches no backend either way: see C14); so every theorem above about vfs_op
+   speaks about the async entry points too, and in particular every async call goes to the owner with its own inode *)
+Theorem C07_async_same : forall s c o a, has_async_twin o = true ->
+  (forall n id, o = OGetattr n -> get_real_rootfs s n <> Ok (SLeft id)) ->
+  vfs_async_op s c o a = tagged (vfs_op s c o a).
+Proof. exact vfs_async_same. Qed.
+Theorem C07_async_calls : forall s c o a, has_async_twin o = true ->
+  snd (vfs_async_op s c o a) = map tag_async (snd (vfs_op s c o a)).
+Proof. exact vfs_async_events. Qed.
+Theorem C07_async_routing : forall s c o a r evs, wf s -> has_async_twin o = true -> vfs_async_op s c o a = (r, evs) ->
+  Forall (fun ev => exists ev0, routed s o ev0 /\ ev = tag_async ev0) evs.
+Proof. exact async_routing. Qed.
+
 (* scope: lseek/getlk/setlk/setlkw/ioctl/bmap/poll/notify_reply are not implemented by the Vfs; they
    reach no backend and fail *)
 Theorem C07_unforwarded : forall s c a m, In m unforwarded ->
@@ -170,3 +185,6 @@ Print Assumptions C07_ino_consistent_readdir.
 Print Assumptions C07_ino_consistent_getattr.
 Print Assumptions C07_ino_consistent_pseudo_lookup.
 Print Assumptions C07_ino_consistent_pseudo_readdir.
+Print Assumptions C07_async_same.
+Print Assumptions C07_async_calls.
+Print Assumptions C07_async_routing.
